@@ -249,6 +249,12 @@ def check_c03(prop, tier, seed):
             runs += n
             for sig, d in out:
                 v.violation(sig, d)
+    nrand = 400 if tier == "quick" else 10000
+    with _pool() as pool:
+        for out, n in pool.imap_unordered(c03_random, [(seed * 52361 + i) % (2 ** 31) for i in range(nrand)], chunksize=16):
+            runs += n
+            for sig, d in out:
+                v.violation(sig, d)
     out, n = numeric_sweep(tm.load_lib())
     runs += n
     for sig, d in out:
@@ -439,6 +445,68 @@ def groupby_concurrent(L):
     return out
 
 
+def c17_random(seed_):
+    """A random configuration beyond the bounds, two suspensions per asynchronous use: tokens, replies and the
+    number of suspensions are accounted for as in the enumerated cases."""
+    from .checks_tm import random_case  # noqa: PLC0415
+    from .driver import Hang, guarded  # noqa: PLC0415
+
+    rnd = random.Random(seed_)
+    case = random_case(rnd, False, agg=rnd.random() < 0.3)
+    L = tm.load_lib()
+    tool = case["cfg"]["tool"]
+    n = nsrc_of(case)
+    fl = rnd.choice([{"src": ["cls"] * n, "call": "asyncdef", "outer": "cls"}, {"src": ["agen"] * n, "call": "partial", "outer": "agen"},
+                     {"src": ["cls"] * n, "call": "obj", "outer": "cls"}])
+    out = []
+    try:
+        def go():
+            o = tm.execute(case, L, flav=fl, susp=2)
+            d = {"engine": "toolmachine", "mode": "random", "cfg": case["cfg"], "nnext": case["nnext"], "flavours": fl, "susp": 2}
+            if not o.acct.ok():
+                out.append((f"C17/{tool}/token-or-reply-not-passed-through", {**d, "observed": o.acct.describe()}))
+            elif o.nsusp + o.nsusp_close != expected_suspensions(o, 2, fl):
+                out.append((f"C17/{tool}/suspends-{'more' if o.nsusp + o.nsusp_close > expected_suspensions(o, 2, fl) else 'less'}-than-user-awaitables",
+                            {**d, "expected": expected_suspensions(o, 2, fl), "observed": o.nsusp + o.nsusp_close}))
+            o2 = tm.execute(case, L, flav={"src": ["iter"] * n, "call": "def", "outer": "iter"}, susp=2)
+            if o2.nsusp != 0 or o2.acct.minted or o2.acct.foreign:
+                out.append((f"C17/{tool}/suspends-with-only-synchronous-arguments", {**d, "observed": {"suspensions": o2.nsusp, **o2.acct.describe()}}))
+        guarded(30.0)(go)()
+    except Hang:
+        out.append((f"C17/{tool}/operation-never-returns", {"engine": "toolmachine", "mode": "random", "cfg": case["cfg"]}))
+    return out, 2
+
+
+def c03_random(seed_):
+    """A random configuration beyond the bounds under a random assignment of flavours: same outcome as the canonical run."""
+    from .checks_tm import random_case  # noqa: PLC0415
+    from .driver import Hang, guarded  # noqa: PLC0415
+
+    rnd = random.Random(seed_)
+    case = random_case(rnd, False, agg=rnd.random() < 0.4)
+    L = tm.load_lib()
+    tool = case["cfg"]["tool"]
+    n = nsrc_of(case)
+    out = []
+    try:
+        def go():
+            ref = outcome(tm.execute(case, L, flav={"src": "cls", "call": "asyncdef"}))
+            for _ in range(3):
+                fl = {"src": [rnd.choice(SRC_FLAVOURS) for _ in range(n)] if n else "cls", "call": rnd.choice(FLAVOURS_CALL), "outer": rnd.choice(SRC_FLAVOURS)}
+                got = outcome(tm.execute(case, L, flav=fl))
+                if got != ref:
+                    what = [k for k in ref if got[k] != ref[k]]
+                    cls = "exception-differs" if set(what) <= {"exc_type", "exc_same", "ending"} else "items-differ" if "yields" in what else \
+                          "result-differs" if "result" in what else "argument-mutated" if "mutations" in what else "callable-invocations-differ"
+                    out.append((f"C03/{tool}/{cls}-with-flavour", {"engine": "toolmachine", "mode": "random", "cfg": case["cfg"], "nnext": case["nnext"],
+                                                                 "flavours": fl, "expected": {k: ref[k] for k in what}, "observed": {k: got[k] for k in what}}))
+                    break
+        guarded(30.0)(go)()
+    except Hang:
+        out.append((f"C03/{tool}/operation-never-returns", {"engine": "toolmachine", "mode": "random", "cfg": case["cfg"]}))
+    return out, 4
+
+
 def check_c17(prop, tier, seed):
     v = Verdict(prop, tier, seed)
     _patch_asyncio()
@@ -449,6 +517,12 @@ def check_c17(prop, tier, seed):
     runs = 0
     with _pool() as pool:
         for out, n in pool.imap_unordered(c17_case, [(c, 2) for c in chosen], chunksize=max(1, len(chosen) // 256)):
+            runs += n
+            for sig, d in out:
+                v.violation(sig, d)
+    nrand = 400 if tier == "quick" else 10000
+    with _pool() as pool:
+        for out, n in pool.imap_unordered(c17_random, [(seed * 48611 + i) % (2 ** 31) for i in range(nrand)], chunksize=16):
             runs += n
             for sig, d in out:
                 v.violation(sig, d)
@@ -840,6 +914,47 @@ def scoped_cancel(L):
     return out, runs
 
 
+def c18_random(seed_):
+    """One random configuration beyond the exhaustive bounds (see checks_tm.random_case), all sources and callables
+    suspending once, cancelled at a random one of its suspensions; judged like the enumerated cases."""
+    from .checks_tm import random_case  # noqa: PLC0415
+    from .driver import Hang, guarded  # noqa: PLC0415
+
+    rnd = random.Random(seed_)
+    case = random_case(rnd, False, agg=rnd.random() < 0.3)
+    case["nnext"] = max(1, case["nnext"])
+    L = tm.load_lib()
+    tool = case["cfg"]["tool"]
+    out = []
+    try:
+        def go():
+            fl = {"src": rnd.choice(["cls", "agen", "clstruthy"]), "call": "asyncdef"}
+            base = tm.execute(case, L, flav=fl, susp=1)
+            if base.nsusp == 0:
+                return 1
+            k = rnd.randint(1, base.nsusp)
+            o = tm.execute(case, L, flav=fl, susp=1, cancel_at=k)
+            d = {"engine": "toolmachine", "mode": "random", "cfg": case["cfg"], "nnext": case["nnext"], "flavour": fl["src"], "cancel_at_suspension": k, "of": base.nsusp}
+            if o.ending != "cancel" or o.exc_same is not True:
+                how = "swallowed" if o.exc_type is None else "replaced" if o.ending == "cancel" else "lost"
+                out.append((f"C18/{tool}/cancellation-{how}", {**d, "observed": {"ending": o.ending, "type": o.exc_type, "same": o.exc_same}}))
+                return 2
+            bad = sorted(i for i, r in o.released.items() if not r)
+            if tool == "chain" and case["cfg"]["par"].get("outer"):
+                fetched = sum(1 for e in o.log if e["ev"] == "pull" and e["src"] == 0 and e["res"] == "item")
+                bad = [i for i in bad if i == 0 or i <= fetched]
+            if bad and tool != "anext":
+                who = "unstarted-source" if all(o.states.get(i) == "new" for i in bad) else "source"
+                during = "+cancelled-inside-the-close-of-another-source" if (o.cancel_tag and o.cancel_tag[0] and o.cancel_tag[0][0] == "aclose") else ""
+                out.append((f"C18/{tool}/unreleased-{who}-after-cancel{during}", {**d, "observed": o.states, "cancelled_at_token": o.cancel_tag}))
+            return 2
+        n = guarded(30.0)(go)()
+    except Hang:
+        out.append((f"C18/{tool}/operation-never-returns", {"engine": "toolmachine", "mode": "random", "cfg": case["cfg"]}))
+        n = 1
+    return out, n
+
+
 def check_c18(prop, tier, seed):
     v = Verdict(prop, tier, seed)
     cases, stats = generate(tier, ITER_TOOLS + AGG_TOOLS + ["anext"], faults=False, prefixes=True)
@@ -850,6 +965,13 @@ def check_c18(prop, tier, seed):
     runs = 0
     with _pool() as pool:
         for out, n in pool.imap_unordered(c18_case, chosen, chunksize=max(1, len(chosen) // 256)):
+            runs += n
+            for sig, d in out:
+                v.violation(sig, d)
+    # beyond the bounds: longer inputs, more sources, larger parameters (random), cancelled at a random suspension
+    nrand = 600 if tier == "quick" else 12000
+    with _pool() as pool:
+        for out, n in pool.imap_unordered(c18_random, [(seed * 40503 + i) % (2 ** 31) for i in range(nrand)], chunksize=16):
             runs += n
             for sig, d in out:
                 v.violation(sig, d)
